@@ -1,5 +1,5 @@
 (** C06 — the removal loops against the bash-independent clause of the property. *)
-From BV Require Import Base.Prelude Expand.Remove.
+From BV Require Import Base.Prelude ParamExp.Remove.
 
 (** * Linear searches *)
 Fixpoint find_up (P : nat -> bool) (iters idx : nat) : option nat :=
